@@ -5,5 +5,7 @@
 extern crate napi_build;
 
 fn main() {
+    // verification-only cfg (never set by this build): declared so that rustc does not warn about it
+    println!("cargo::rustc-check-cfg=cfg(datadog_dd_native_iast_rewriter_js_verif)");
     napi_build::setup();
 }
